@@ -106,6 +106,17 @@ type Spec struct {
 	// Extra: operations (path -> method -> operation object) that are generated and compiled but never called:
 	// nested array parameters in every location, outside the fragment of the binding model
 	Extra map[string]map[string]interface{}
+	// SplitPath: a path whose path item lives in a sibling document (paths.json) and is pulled in by $ref
+	SplitPath string
+	sibling   map[string]interface{}
+}
+
+// Siblings: the documents to write next to the spec
+func (sp *Spec) Siblings() map[string]interface{} {
+	if sp.sibling == nil {
+		return nil
+	}
+	return map[string]interface{}{"paths.json": sp.sibling}
 }
 
 func i64(v int64) *int64 { return &v }
@@ -248,6 +259,10 @@ func (sp *Spec) JSON() map[string]interface{} {
 			pi[m] = o
 		}
 		paths[path] = pi
+	}
+	if pi, ok := paths[sp.SplitPath]; ok && sp.SplitPath != "" {
+		sp.sibling = map[string]interface{}{"moved": pi}
+		paths[sp.SplitPath] = map[string]interface{}{"$ref": "paths.json#/moved"}
 	}
 	doc := map[string]interface{}{
 		"swagger": "2.0", "info": map[string]interface{}{"title": "verifapi", "version": "1"},
@@ -677,5 +692,9 @@ func (g *gen) spec(nops int, variant int) *Spec {
 		Params:    []PSpec{g.nestedParam("formData", "nf0"), g.nestedParam("formData", "nf1")},
 		Responses: []RSpec{{Code: 200}}, HasSecurity: true, Security: [][]string{}})
 	sp.Extra = g.extraOps()
+	if variant%3 == 2 {
+		sp.SplitPath = "/opnames" // an operation without $refs of its own: its path item can live in another file
+		g.hit("spec:path-item-in-sibling-file")
+	}
 	return sp
 }
